@@ -53,6 +53,11 @@ var c26Pieces = []piece{
 	{"selector-dot-eol", []seg{c("x = st.\n\tf.\n\tg\n")}},
 	{"method-chain-dot-eol", []seg{c("v := b.\n\tWithA().\n\tWithB(1)\n")}},
 	{"float-dot-eol", []seg{c("fl := 1.\n")}},
+	{"keyword-eol-after-bracket-struct", []seg{c("var ks []struct\n{\n\ta int\n}\n")}},
+	{"keyword-eol-after-bracket-func", []seg{c("var kf []func\n(int) int\n")}},
+	{"keyword-eol-after-bracket-interface", []seg{c("var ki map[string]interface\n{}\n")}},
+	{"keyword-eol-after-semicolon", []seg{c("x = 1;var\nkv = 2\n")}},
+	{"keyword-eol-after-brace", []seg{c("type kt struct{};type\nku int\n")}},
 	{"selector-dot-digit-ident", []seg{c("v2 := b2.\n\tWithA().\n\tv1\n")}},
 	{"hex-float-dot-eol", []seg{c("fl = 0x1f + 12e3 + 1.\n")}},
 	{"comment-stars", []seg{k("/** doc { ( **/"), c("\n")}},
